@@ -283,7 +283,28 @@ API_ROUTES = ["api_lenient", "api_strict"]
 TOOL_ROUTES = ["validate_tool", "write_strict", "write_lenient", "cli_normalize", "cli_validate", "cli_write"]
 
 
+_held = {}
+
+
 def replay(item):
+    """one document; every 8th document is held and read again four documents later in the same process: the observation must be
+    the same (repeat_ok)"""
+    rec = _replay_once(item)
+    rec["obs"]["repeat_ok"] = True
+    i = item[0]
+    if i % 8 == 0:
+        _held["item"], _held["obs"] = item, json.dumps(rec["obs"], sort_keys=True)
+    elif i % 8 == 4 and _held.get("item") is not None and _held["item"][0] == i - 4:
+        again = _replay_once(_held["item"])
+        again["obs"]["repeat_ok"] = True
+        if json.dumps(again["obs"], sort_keys=True) != _held["obs"]:
+            rec["obs"]["repeat_ok"] = False
+            rec["repeat_of"] = _held["item"][0]
+        _held.clear()
+    return rec
+
+
+def _replay_once(item):
     from octave_mcp.core.emitter import emit
     from octave_mcp.core.parser import parse, parse_with_warnings
 
